@@ -4,7 +4,7 @@ package genbank
 
 // C03: GenBank write-then-read is the identity and writing is deterministic.
 //
-// verif:bound C03 structured records: locus name 4 symbolic characters, sequence of 3, 12 or 61 symbolic letters, linear/circular/neither, metadata fields one symbolic word each (DEFINITION optionally ~90 characters long, forcing the writer to wrap), 0..2 references with and without REMARK, 0..2 extra keyword blocks, 0..2 features with 0..2 (quick) / 0..3 (thorough) qualifiers (values 2 symbolic bytes over letters, digits and inner space), location cached as text or assembled as a structure
+// verif:bound C03 structured records: locus name 4 symbolic characters, sequence of 3, 12 or 61 symbolic letters, linear/circular/neither, metadata fields one symbolic word each (DEFINITION optionally ~90 characters long, forcing the writer to wrap), 0..2 references with and without REMARK, 0..2 extra keyword blocks, 0..2 features with 0..2 (quick) / 0..3 (thorough) qualifiers (values 2 symbolic bytes over letters, digits and inner space), location cached as text or assembled as a structure, including one-base spans with partial markers; the last word before the DEFINITION wrap point is 2 symbolic printable characters
 // verif:bound C03 determinism: every iteration order of the qualifier maps and of the extra-keyword map is explored for two independent writes (exact for maps of <= 3 entries); natively the writes are repeated 50 times
 // verif:bound C03 parser-image clause: Parse(Build(Parse(t))) = Parse(t) for the C01 selftest record
 // verif:bound C03 outside the claim: sequences of 10^5 letters, 40 features, 8 qualifiers, metadata of 2000 characters, Write/Read file wrappers; the 'independent reader' is the layout checks of this harness (column facts), not a second full parser
@@ -24,6 +24,17 @@ func c03Value() string {
 }
 
 func c03Word() string { return vBytes(2, c01Word) }
+
+// printable ASCII without space and double quote
+func c03Punct() string {
+	var b []byte
+	for c := byte(33); c < 127; c++ {
+		if c != '"' {
+			b = append(b, c)
+		}
+	}
+	return string(b)
+}
 
 func c03Record() poly.Sequence {
 	var x poly.Sequence
@@ -53,7 +64,12 @@ func c03Record() poly.Sequence {
 	m := &x.Meta
 	m.Definition = "Synthetic " + c03Word() + " construct."
 	if ax(1, 2) == 1 {
-		m.Definition = "A rather long definition line that goes on and on so that the writer has to wrap it " + c03Word() + " somewhere."
+		// the symbolic word (any printable non-space characters) is the last word before the wrap
+		w := vBytes(2, c03Punct())
+		// C01's quantifier: no line other than a record terminator ends in "//" (the multi-record
+		// reader splits at "//\n"), so the word at the wrap point is not "//"
+		vAssume(vNot(vEqStr(w, "//")))
+		m.Definition = "A rather long definition line that goes on and on so it wraps at " + w + " somewhere after that word."
 	}
 	m.Accession, m.Version, m.Keywords = "AB"+c03Word(), "AB0001.1", "."
 	m.Source = "synthetic " + c03Word()
@@ -78,7 +94,7 @@ func c03Record() poly.Sequence {
 	for i := 0; i < nf; i++ {
 		var f poly.Feature
 		f.Type = []string{"gene", "CDS"}[i]
-		loc := []string{"1..3", "complement(join(1..2,3..3))"}[i]
+		loc := [][]string{{"1..3", "<2..2", "complement(3..>3)"}, {"complement(join(1..2,3..3))", "join(<1..1,3..3)", "2..3"}}[i][ax(2, 3)]
 		f.SequenceLocation = parseLocation(loc)
 		if (full && vChoice(2) == 1) || (!full && (prof+i)%2 == 1) {
 			f.GbkLocationString = loc // cached location text
